@@ -5223,6 +5223,12 @@ def pprint(val,imports=None, prefix="\n    ", settings=[],
     if isinstance(val,type):
         rep = type_script_repr(val,imports,prefix,settings)
 
+    elif script_repr_reg.get(type(val)) is container_script_repr:
+        # (the items are printed as the container's owner is: qualified or not)
+        rep = container_script_repr(val,imports,prefix,settings,
+                                    unknown_value=unknown_value,qualify=qualify,
+                                    separator=separator)
+
     elif type(val) in script_repr_reg:
         rep = script_repr_reg[type(val)](val,imports,prefix,settings)
 
@@ -5244,10 +5250,10 @@ script_repr_reg = {}
 
 
 # currently only handles list and tuple
-def container_script_repr(container,imports,prefix,settings):
+def container_script_repr(container,imports,prefix,settings,**kwargs):
     result=[]
     for i in container:
-        result.append(pprint(i,imports,prefix,settings))
+        result.append(pprint(i,imports,prefix,settings,**kwargs))
 
     ## (hack to get container brackets)
     if isinstance(container,list):
